@@ -111,6 +111,18 @@ Theorem C20_lookup_by_name_returns_holder_refuted :
     map m_id (holders nm (map snd (by_id s'))) = [id] /\ nget nm (by_name s') = None.
 Proof. exact lookup_by_name_refuted. Qed.
 
+(* "every replica ends with the source's latest version of each entity (in compacted form for compact journals)" —
+   REFUTED for an agent that follows TWO compact aggregator journals one after the other (finding F-C20c): a compact
+   journal that receives an event equal to the stored one keeps the OLD version number, so version numbers are private
+   to each compact journal and the agent's cursor does not transfer: the second journal holds the source's latest
+   content, answers the agent with an empty diff for ever, and the agent keeps different content (and hash). *)
+Theorem C20_agent_following_two_compact_journals_refuted :
+  exists (L agent : journal) (latest : event),
+    map (fun e => set_ver e 0) (j_entries L) = [set_ver latest 0] /\
+    journal_diff (fun _ => 0) L (j_loader agent) 1000 1000000 = [] /\
+    map (fun e => set_ver e 0) (j_entries agent) <> map (fun e => set_ver (wire e) 0) (j_entries L).
+Proof. exact compact_cursor_not_transferable. Qed.
+
 (* non-vacuity *)
 Definition toyH (e : event) : Z := e_id e * 7 + e_typ e + 1.
 Definition ex_e1 := Ev 0 1 1 [120] 1 0 0 0 0 (Dt false false false 0 0).
